@@ -12,6 +12,11 @@ HINTS = {
          'implementations, default arguments, error handling, dtype/shape handling, or code that only runs for one of the configurations listed in '
          'the quantifier (e.g. the other grid type, the file-backed variant, the empty case, the second call). Boundary conditions and '
          'off-by-one conditions on rarely exercised branches are welcome. Each of the three seeds must sit in a different function.',
+    '4': 'Aim at details that a reviewer skims over: a numerical constant or tolerance, an off-by-one in a count / index / degrees of '
+         'freedom, two arguments of the same type exchanged, integer versus true division, a copy replaced by a view (or the reverse), a '
+         'value cached or computed once where it must follow later changes, a default parameter value, the order of two operations that '
+         'only matters for one configuration of the quantifier, an exception that is caught too broadly or converted into a default value. '
+         'Each of the three seeds must sit in a different function and use a different one of these mechanisms.',
 }
 prop = None
 for line in open(os.path.join(HERE, 'properties.jsonl')):
